@@ -37,6 +37,8 @@ Part 2.  `C03_fenced_among_paragraphs` and its instances `C03_fenced_after_parag
          `C03_fenced_between_paragraphs`: whatever surrounds the code.
 Part 2a. `C03_fenced_document`: any document made of one-line paragraphs and ANY NUMBER of fenced blocks
          (`Item`, `itemsSource`, `itemsHtml`): every block comes out as in Part 1, at its place.
+Part 2c. `C03_fenced_other_extensions`, `C03_fenced_extensions_inert`: with ANY of the other ten modelled extensions
+         enabled as well, the same output — their processors never see the stashed body.
 Part 2b. `C03_fenced_any_body`: EVERY body without `<` (tabs, CR, STX/ETX, lines of spaces included): the code of
          the output is the body as `NormalizeWhitespace` leaves it (`normBody`), nothing else happens to it.
 Part 3.  `C03_fenced_html_reads_back`, `C03_fenced_body_reads_back`: the output, read by the strict reader of the
@@ -193,6 +195,52 @@ example : convertX { fencedCode := true } {}
       "```\n*a*\n~~~\n```\n\n~~~~py\n```\n&\n~~~~\n\nText\n\n```\n~~~~py\nx\n~~~~\n```".toList =
     .ok "<pre><code>*a*\n~~~\n</code></pre>\n<pre><code class=\"language-py\">```\n&amp;\n</code></pre>\n<p>Text</p>\n<pre><code>~~~~py\nx\n~~~~\n</code></pre>".toList := by
   decide +kernel
+
+/-! ### Part 2c: other extensions enabled at the same time -/
+
+/-- **other extensions do not see the code.**  Enable, together with `fenced_code`, any subset of the other modelled
+    extensions — tables, admonition, def_list, abbr, footnotes, sane_lists, nl2br, wikilinks, attr_list, toc (`x : Exts`
+    with `x.fencedCode = true`, 1024 configurations).  For every document of paragraphs and fenced blocks as in
+    `C03_fenced_document` the output is the same: each body comes out literal even when it is full of the syntax of the
+    enabled extensions (table rows, `[^1]` and `[^1]: …`, `*[A]: b`, `!!! note`, definition lists, `[[wiki]]`,
+    `{: #id}`, `[TOC]`, line breaks for nl2br) — the block was stashed before any of their processors ran, and none of
+    them looks into the stash.  Hypothesis `hadm`: with admonition enabled the text has no `!!!` followed (after an
+    optional blank) by a non-ASCII character, for which the model answers "outside the modelled domain"
+    (`PipelineX.admNonAscii`: `str.capitalize` of a non-ASCII class name). -/
+theorem C03_fenced_other_extensions (x : Exts) (hx : x.fencedCode = true) (tab : Nat) (htab : 0 < tab) (fmt : Ser.Fmt)
+    (items : List Item) (hne : items ≠ []) (h : items.all Item.ok = true)
+    (hadm : (x.admonition && admNonAscii (itemsSource items ++ ['\n', '\n'])) = false) :
+    convertX x { tab := tab, fmt := fmt } (itemsSource items) = .ok (itemsHtml items) := by
+  have e : itemsSource items ++ ['\n', '\n'] = paras (items.map Item.src) := join_nl2 _ (by simpa using hne)
+  rw [e] at hadm
+  exact convert_items_flags x hx tab htab fmt items hne (fun it hit => List.all_eq_true.1 h it hit) hadm
+
+/-- the same as a non-interference statement: enabling further extensions changes nothing -/
+theorem C03_fenced_extensions_inert (x : Exts) (hx : x.fencedCode = true) (tab : Nat) (htab : 0 < tab) (fmt : Ser.Fmt)
+    (items : List Item) (hne : items ≠ []) (h : items.all Item.ok = true)
+    (hadm : (x.admonition && admNonAscii (itemsSource items ++ ['\n', '\n'])) = false) :
+    convertX x { tab := tab, fmt := fmt } (itemsSource items) =
+      convertX { fencedCode := true } { tab := tab, fmt := fmt } (itemsSource items) := by
+  rw [C03_fenced_other_extensions x hx tab htab fmt items hne h hadm, C03_fenced_document tab htab fmt items hne h]
+
+/-- every modelled extension enabled -/
+def allExts : Exts :=
+  { fencedCode := true, tables := true, admonition := true, defList := true, abbr := true, footnotes := true,
+    saneLists := true, nl2br := true, wikilinks := true, attrList := true, toc := true }
+
+-- the hypotheses on a concrete input: every extension on; a body full of the extensions' syntax
+example : allExts.fencedCode = true ∧
+    [Item.para "Text".toList, .fence 3 '`' [] "| a | b |\n|---|---|\n[^1]: n\n*[A]: b\n!!! note\nT\n:   d\n[[w]] {: #i}\n[TOC]".toList].all Item.ok = true ∧
+    admNonAscii (itemsSource [Item.para "Text".toList,
+      .fence 3 '`' [] "| a | b |\n|---|---|\n[^1]: n\n*[A]: b\n!!! note\nT\n:   d\n[[w]] {: #i}\n[TOC]".toList] ++ ['\n', '\n']) = false := by
+  decide +kernel
+-- … and what the model computes there with every extension on
+example : convertX allExts {}
+      "Text\n\n```\n| a | b |\n|---|---|\n[^1]: n\n*[A]: b\n!!! note\nT\n:   d\n[[w]] {: #i}\n[TOC]\n```".toList =
+    .ok "<p>Text</p>\n<pre><code>| a | b |\n|---|---|\n[^1]: n\n*[A]: b\n!!! note\nT\n:   d\n[[w]] {: #i}\n[TOC]\n</code></pre>".toList := by
+  decide +kernel
+-- the excluded point: the model does not answer there
+example : convertX { fencedCode := true, admonition := true } {} "```\n!!! é\n```".toList = .ood := by decide +kernel
 
 /-! ### Part 2b: any body — the normaliser's part spelt out -/
 
